@@ -31,7 +31,7 @@ try:
             t = " tests=" + ("pass" if tr.returncode == 0 else "FAIL")
         fired = []
         for prop in impl:
-            r = subprocess.run([os.path.join(HERE, "bin", "pfverify"), "-repo", d, "-verif", vdir, "-prop", prop], capture_output=True, text=True)
+            r = subprocess.run([os.environ.get("PFVERIFY_BIN", os.path.join(HERE, "bin", "pfverify")), "-repo", d, "-verif", vdir, "-prop", prop], capture_output=True, text=True)
             if r.returncode == 2: fired.append(prop + ":ERROR " + r.stderr[-200:])
             for line in r.stdout.splitlines():
                 line = line.strip()
